@@ -230,3 +230,24 @@ def extract_zip_sweep(ck, c, pat):
 
 
 conditions_at = rules.conditions_at
+
+
+def narrowing_len_sweep(ck, c, scope, name_pat, rule="CMP"):
+    """In verifier-side functions no comparison operand is a length/count that went through a narrowing integer cast
+    (`len() as u8`): the comparison then holds modulo 2^8 / 2^16 / 2^32 and oversized inputs pass."""
+    n = 0
+    for p in sorted(c.paths()):
+        if not scope.search(p) or not name_pat.search(p) or re.search(r"::tests?::|::test_", p):
+            continue
+        for b in c.get_all(p):
+            f = Fn(b)
+            for cx in rules.comparisons(f):
+                n += 1
+                for side in ("a", "b"):
+                    o = f.origins(cx[side])
+                    if any(a[0] == "call" and re.search(r"::(len|count)$", a[1]) for a in o) and any(a[0] == "cast" and a[1] in ("u8", "u16", "u32", "i8", "i16", "i32") for a in o):
+                        ck.ob(rule, p, "length-compared-at-full-width@bb%d" % cx["bb"], False,
+                              "a length is cast to %s before it is compared: the test holds modulo the narrower width, a collection that is 2^k elements too long passes" %
+                              [a[1] for a in o if a[0] == "cast"][0], f.loc(cx["bb"]))
+    ck.ob(rule, "-", "no-narrowed-length-comparisons", True, "%d comparisons in verifier-side functions scanned for narrowed lengths" % n, "", nontrivial=False)
+    return n
